@@ -163,6 +163,12 @@ def mon_c05(ops, obs, eng):
     return out
 
 
+def mon_view_c05(ops, obs, eng):
+    """dbprops.mon_view, C05 part: tick results, context time, no report time in the future, SHARD_STATES says OK exactly when a strict
+    majority of the members is healthy according to the times shown in the context"""
+    return dbprops.mon_view(ops, obs, eng, check=("c05",))
+
+
 # ------------------------------------------------------------------ classes engine
 def ctx_of_json(js):
     c = json.loads(js)
@@ -375,28 +381,38 @@ def run(ck):
                       "first-seen {0,>0} and every (members 1..6, healthy, failed, waiting) count with the healthy members exactly on the timeout. "
                       "Non-trivial = trace with a tick run of exactly ttl/step-1, ttl/step or ttl/step+1 ticks / context with a never-reported member "
                       "or a member whose report age is ttl-step, ttl or ttl+step; distinct by md5.")
+    import time
+    tm = [time.time()]
+    ph = ck.cov.setdefault("phase_seconds", {})
+
+    def lap(name):
+        tm.append(time.time())
+        ph[name] = round(tm[-1] - tm[-2], 1)
     ok = ck.proofs(["theories/DBRun.vo", "theories/DBClassesRun.vo"])
+    lap("proofs")
     eng = dbengine.Engine(ck)
     eng.sort_ls = True
     eng.binp = ck.go_test_bin("", ["root/zz_verif_db_test.go", "root/zz_verif_classes_test.go"], name="dbexec")
     if eng.binp is None:
         return
+    lap("go_build")
     traces = dbprops.load_corpus("C05")
     quick = ck.tier == "quick"
-    for _ in range(150 if quick else 8000):
+    for _ in range(90 if quick else 1500):
         traces.append(dbgen.gen_view_trace(ck.rng, length=ck.rng.randint(10, 40), strays=False))
-    for _ in range(110 if quick else 6000):
-        traces.append(gen_timeline(ck.rng, length=ck.rng.randint(8, 18)))
+    for _ in range(60 if quick else 1200):
+        traces.append(gen_timeline(ck.rng, length=ck.rng.randint(6, 14)))
     if not ok:
         return
-    results, _ = dbprops.run_db_property(ck, eng, traces, [mon_c05, lambda o, b, e: dbprops.mon_view(o, b, e, check=("c05",))],
+    results, _ = dbprops.run_db_property(ck, eng, traces, [mon_c05, mon_view_c05],
                                          with_replicas=False, nontrivial=nontrivial)
     ck.sample({"trace": dbengine.trace_to_json(traces[-1][:8])})
+    lap("db_engine_impl_monitors_model")
     if results is None:
         return
     # classes engine: the contexts the real DB produced ...
     seen, ctxs = set(), []
-    cap = 1500 if quick else 40000
+    cap = 500 if quick else 15000
     traces = [dbprops.tuplify(t) for t in traces]
     for ti, ops in enumerate(traces):
         obsA = results[ti]["obs"].get("A", {})
@@ -411,3 +427,4 @@ def run(ck):
     for js in boundary_contexts(eng.params[0], eng.params[1]):
         ctxs.append((js, {"hand_built_context": True}))
     run_classes(ck, eng.binp, ctxs, eng.params[0])
+    lap("classes_engine")
